@@ -275,7 +275,7 @@ Definition intent_def (pweight : str -> outcome wt) (i : intent) : outcome def :
 (* ---------------- which registrations the command language can express ----------------
    Decidable.  What the libraries say is a parameter: [isprint] (strconv.IsPrint), [pweight]
    (strconv.ParseFloat), [canon] (url.Parse), [glob_ok] (glob.Compile: addRoute compiles every
-   path, whatever the matcher). *)
+   path, whatever the matcher, and -- since /repo c9fb527 -- the lower-cased host of a new host). *)
 Definition nonempty (s : str) : bool := match s with [] => false | _ => true end.
 Definition space_free (s : str) : bool := negb (existsb go_space s).
 Definition word_ok (s : str) : bool := nonempty s && space_free s.          (* a \S+ token that survives TrimSpace *)
@@ -308,6 +308,7 @@ Section Expressible.
      the whole text) *)
   Definition F_C14_blocking (i : intent) : bool :=
     negb (word_ok (i_svc i) && word_ok (i_route i) && glob_ok (snd (hostpath (i_route i)))
+          && glob_ok (lower (fst (hostpath (i_route i))))
           && word_ok (i_dst i) && (match canon (i_dst i) with Some _ => true | None => false end)
           && weight_ok (i_weight i)
           && forallb no_quote (i_tags i) && forallb no_quote (i_opts i)).
